@@ -9,7 +9,7 @@ Property theorems over the **regenerated** kernels `Gen.parseGetEntriesRange` an
 (`I64.add`/`I64.sub`), so an overflow in the code is an overflow in the term.
 
 The handler part (stored bytes relayed unmodified, 4xx without a backend call,
-entry decoding) is in `CTV.Model.GetEntries` / `CTV.Props.C07b`.
+the decoding of served entries is in `CTV.Props.C07b`; the hand model of the handlers is `CTV.Model.GetEntries`.
 -/
 set_option linter.unusedSimpArgs false
 open I64
@@ -153,6 +153,16 @@ theorem served_entries (start count : Int) (treeSize : Nat) (leaves : List BLeaf
     · simp [hh] at h3
     · rfl
   exact ⟨h.symm, by omega, indicesOk_spec leaves start h3', by omega⟩
+
+/-- …and conversely an honest backend reply (tree beyond `start`, at most `count` leaves, consecutive indices from `start`)
+is answered 200 with exactly those leaves — the handler does not reject what it should serve. -/
+theorem served_entries_complete (start count : Int) (treeSize : Nat) (leaves : List BLeaf)
+    (ht : U64.wrap start < treeSize) (hc : (leaves.length : Int) ≤ count) (hi : indicesOk start leaves = true) :
+    getEntriesRespond start count treeSize leaves = (200, leaves.map (fun l => (l.value, l.extra))) := by
+  unfold getEntriesRespond
+  have h1 : ¬ ((treeSize : Int) ≤ U64.wrap start) := by omega
+  have h2 : ¬ ((leaves.length : Int) > count) := by omega
+  simp [h1, h2, hi]
 
 /-- every request that does not satisfy `0 ≤ start ≤ end` (including unparsable parameters) is refused before any backend
 call: the handler answers 400 (see `C08.pre_params` for the HTTP surface). -/
